@@ -332,7 +332,7 @@ class NatafTransformation:
             phi[ d ] = stats.norm.pdf( Z[ d ] )
             y[ d ] = self.distObjs[ d ].pdf( X[ d ] )
         rst = 0
-        if not np.isclose( np.prod( phi ), 0 ):
+        if np.prod( phi ) > 0:
             rst = np.prod( y ) / np.prod( phi ) * mv.pdf( Z )
         return rst
     
